@@ -9,7 +9,7 @@
     and required to be true by the harness. *)
 From Coq Require Import String.
 From Cvg Require Import Base GoTypes Re Unicode Matcher Dump Options Front Builder Gen Pipeline.
-From Cvg.proofs Require Import BuilderProofs FrontProofs NoPanicProofs.
+From Cvg.proofs Require Import BuilderProofs FrontProofs NoPanicProofs FuelProofs.
 From Cvg.gen Require FixtureDumps.
 Open Scope N_scope.
 
@@ -25,6 +25,18 @@ Theorem C14_no_panic :
 Proof. exact run_pipeline_never_panics. Qed.
 Print Assumptions C14_no_panic.
 
+(** ... nor does the model's recursion run out of fuel (the model's reading of "never hangs" for
+    the member-wise descent of structToStruct, the only unbounded recursion of the pipeline):
+    when by-value struct containment is well-founded — [rank_ok_b]: a rank computed from the
+    environment decreases through every named type, which Go's rejection of invalid recursive
+    types guarantees, and stays below [build_fuel] for every method's operands; computed by the
+    model on every run and required to be true by the harness — the outcome is never Fuel.
+    With C19_parser_fuel_suffices (the regexp parser) every fuelled recursion of the model is covered. *)
+Theorem C14_no_fuel_exhaustion :
+  forall d, rank_ok_b d = true -> is_fuel (po_result (run_pipeline d)) = false.
+Proof. exact run_pipeline_never_out_of_fuel. Qed.
+Print Assumptions C14_no_fuel_exhaustion.
+
 (** Non-vacuity, on the repository's own fixtures (regenerated from /repo on every
     run): each decodes, satisfies the hypothesis, and the model runs it to Ok with
     at least one function — except the one without converter interface, which
@@ -33,7 +45,7 @@ Definition fixture_status (sx : sexp) : N * N :=
   match dec_dump sx with
   | None => (9, 0)
   | Some d =>
-      if negb (dump_wf_b d) then (8, 0) else
+      if negb (dump_wf_b d && rank_ok_b d) then (8, 0) else
       match po_result (run_pipeline d) with
       | Ok bs => (1, N.of_nat (List.length (List.concat (List.map b_funcs bs))))
       | Err _ => (2, 0) | Panic _ => (3, 0) | Fuel => (4, 0) | Unsup _ => (5, 0)
